@@ -23,6 +23,24 @@ pub struct Case {
     /// expected plaintext when the ciphertext is untouched, None when it must be rejected
     pub expect: Option<String>,
     pub label: String,
+    /// `ct` is a GM/T 0009 SEQUENCE and goes through `decrypt_asn1` (with the `compressed` flag as given)
+    #[serde(default)]
+    pub asn1: bool,
+}
+
+/// strict reference for the ASN.1 form: parse with the independent DER reader, coordinates below p, then decrypt
+fn ref_decrypt_asn1(d: &BigUint, doc: &[u8]) -> Option<Vec<u8>> {
+    let (x, y, hash, body) = refmodels::der::sm2_cipher_decode(doc)?;
+    let p = &sm2::params().p;
+    if x >= *p || y >= *p || hash.len() != 32 {
+        return None;
+    }
+    let mut raw = vec![0x04u8];
+    raw.extend_from_slice(&cand(&x));
+    raw.extend_from_slice(&cand(&y));
+    raw.extend_from_slice(&hash);
+    raw.extend_from_slice(&body);
+    sm2::decrypt(d, &raw, true, false)
 }
 
 pub fn eval(ctx: &Ctx, c: &Case) {
@@ -32,11 +50,11 @@ pub fn eval(ctx: &Ctx, c: &Case) {
     let ct = hex::decode(&c.ct).unwrap();
     let sk = private_key(&d);
     ctx.call();
-    let r = guard(|| sk.decrypt(&ct, c.compressed, model(c.c1c3c2)));
-    let site = "Sm2PrivateKey::decrypt";
+    let r = if c.asn1 { guard(|| sk.decrypt_asn1(&ct, c.compressed, model(c.c1c3c2))) } else { guard(|| sk.decrypt(&ct, c.compressed, model(c.c1c3c2))) };
+    let site = if c.asn1 { "Sm2PrivateKey::decrypt_asn1" } else { "Sm2PrivateKey::decrypt" };
     let cfg = format!("{}/{}", if c.c1c3c2 { "C1C3C2" } else { "C1C2C3" }, if c.compressed { "compressed" } else { "uncompressed" });
     // the strict reference decryptor must agree with the expectation (guards the oracle)
-    let refd = sm2::decrypt(&d, &ct, c.c1c3c2, c.compressed);
+    let refd = if c.asn1 { ref_decrypt_asn1(&d, &ct) } else { sm2::decrypt(&d, &ct, c.c1c3c2, c.compressed) };
     ctx.trace();
     if refd.as_ref().map(hex::encode) != c.expect {
         ctx.machinery_error(format!("reference decryptor disagrees with case expectation for label {}", c.label));
@@ -95,7 +113,7 @@ pub fn run(ctx: &Arc<Ctx>) {
     refmodels::selftest::run(&["sm3", "sm2"]).unwrap_or_else(|e| ctx.machinery_error(format!("reference self-test failed: {}", e)));
     let pr = sm2::params();
     let (n, p) = (pr.n.clone(), pr.p.clone());
-    ctx.set_rule("base ciphertexts (message lengths {1,17,32,33}, thorough 1..=40, x 2 orders x 2 C1 encodings, made by the reference encryptor): every single-bit flip of the whole ciphertext; every truncation length; C1 replaced by (x,y+-1), (x+-1,y), (0,0), points on y^2=x^3+ax+b' (incl. an order-2 point) with C2,C3 completed correctly for that point, compressed x that is a non-residue, x+p aliases of an on-curve point with tiny x, compressed non-residue x with the body completed for the bogus root, a ciphertext whose KDF output is all zero, C1 of another ciphertext; C2/C3 swapped between two ciphertexts. Oracle: result must be Err — never Ok(anything), never a panic; the untouched ciphertext must decrypt.");
+    ctx.set_rule("base ciphertexts (message lengths {1,17,32,33}, thorough 1..=40, x 2 orders x 2 C1 encodings, made by the reference encryptor): every single-bit flip of the whole ciphertext; every truncation length; C1 replaced by (x,y+-1), (x+-1,y), (0,0), points on y^2=x^3+ax+b' (incl. an order-2 point) with C2,C3 completed correctly for that point, compressed x that is a non-residue, x+p aliases of an on-curve point with tiny x, compressed non-residue x with the body completed for the bogus root, a ciphertext whose KDF output is all zero, C1 of another ciphertext; C2/C3 swapped between two ciphertexts. The ASN.1 form through decrypt_asn1 with both values of its compressed flag: every single-bit flip of C1.x, C1.y, C3 and C2 re-encoded as a well-formed GM/T 0009 document, y negated, y + p. Oracle: result must be Err — never Ok(anything), never a panic; the untouched ciphertext must decrypt.");
     let mut g = SplitMix::new(ctx.seed, "c06");
     let lens: Vec<usize> = ctx.tier.pick(vec![1, 17, 32, 33], (1..=40).collect());
     let d = hb(ANNEX_D);
@@ -110,7 +128,7 @@ pub fn run(ctx: &Arc<Ctx>) {
                 let k = g.nonzero_below(&n);
                 let base = sm2::encrypt_with_k(&pk, &msg, &k).expect("base ct");
                 let ct = base.encode(c1c3c2, compressed);
-                let mk = |ctb: Vec<u8>, expect: Option<String>, label: &str| Case { d: hexbig(dd), ct: hex::encode(ctb), c1c3c2, compressed, expect, label: label.to_string() };
+                let mk = |ctb: Vec<u8>, expect: Option<String>, label: &str| Case { d: hexbig(dd), ct: hex::encode(ctb), c1c3c2, compressed, expect, label: label.to_string(), asn1: false };
                 cases.push(mk(ct.clone(), Some(hex::encode(&msg)), "untouched"));
                 let c1len = if compressed { 33 } else { 65 };
                 // every single-bit flip
@@ -245,6 +263,37 @@ pub fn run(ctx: &Arc<Ctx>) {
                 cases.push(mk(raw_encode(&c1o, &base.c2, &base.c3, c1c3c2), None, "C1-from-other-ciphertext"));
                 // wrong order / wrong encoding flags are the caller's business and not judged
             }
+        }
+    }
+    // the ASN.1 form (GM/T 0009) through decrypt_asn1, with both values of its `compressed` flag: every single-bit flip of
+    // x, y, the hash and the ciphertext octets, re-encoded as a well-formed document, must be refused
+    for (bi, l) in [1usize, 33].into_iter().enumerate() {
+        let dd = if bi == 0 { &d } else { &d2 };
+        let pk = sm2::g_mul(dd);
+        let msg = content("seed", l, ctx.seed ^ 0xa5);
+        let k = g.nonzero_below(&n);
+        let base = sm2::encrypt_with_k(&pk, &msg, &k).expect("base ct");
+        let (x, y) = base.c1.clone().unwrap();
+        for compressed in [false, true] {
+            let mk = |doc: Vec<u8>, expect: Option<String>, label: &str| Case { d: hexbig(dd), ct: hex::encode(doc), c1c3c2: true, compressed, expect, label: label.to_string(), asn1: true };
+            cases.push(mk(refmodels::der::sm2_cipher_encode(&x, &y, &base.c3, &base.c2), Some(hex::encode(&msg)), "untouched"));
+            for bit in 0..256u32 {
+                let fx = &x ^ (BigUint::from(1u32) << bit);
+                let fy = &y ^ (BigUint::from(1u32) << bit);
+                cases.push(mk(refmodels::der::sm2_cipher_encode(&fx, &y, &base.c3, &base.c2), None, "asn1-bitflip-C1.x"));
+                cases.push(mk(refmodels::der::sm2_cipher_encode(&x, &fy, &base.c3, &base.c2), None, "asn1-bitflip-C1.y"));
+                let mut h = base.c3;
+                h[(bit / 8) as usize] ^= 0x80 >> (bit % 8);
+                cases.push(mk(refmodels::der::sm2_cipher_encode(&x, &y, &h, &base.c2), None, "asn1-bitflip-C3"));
+            }
+            for bit in 0..base.c2.len() * 8 {
+                let mut c2 = base.c2.clone();
+                c2[bit / 8] ^= 0x80 >> (bit % 8);
+                cases.push(mk(refmodels::der::sm2_cipher_encode(&x, &y, &base.c3, &c2), None, "asn1-bitflip-C2"));
+            }
+            // y replaced by p - y (the other root: a different valid point) and by y + p (unreduced)
+            cases.push(mk(refmodels::der::sm2_cipher_encode(&x, &(&p - &y), &base.c3, &base.c2), None, "asn1-C1.y-negated"));
+            cases.push(mk(refmodels::der::sm2_cipher_encode(&x, &(&y + &p), &base.c3, &base.c2), None, "asn1-C1.y+p"));
         }
     }
     ctx.note_bound(format!("{} base lengths x 4 configurations, {} cases", lens.len(), cases.len()));
